@@ -185,9 +185,154 @@ fn generate(out: &Path, kt: &str, buckets: HashBucketsParam, tag: &str, seed: u6
     println!("{kt}_{tag}: table {} entries {} free slots {free} max chain {} large used {large_used} key file {} val file {}", dec.n, model.len(), dec.max_chain, img.key.len(), img.val.len());
 }
 
+/// key lengths whose slot does not depend on the offset widths at all (1..4 bytes each): such records never move
+fn safe4(l: u64) -> bool {
+    let s = key_slot(l, 1, 1);
+    (1..=4).all(|wv| (1..=4).all(|wn| key_slot(l, wv, wn) == s))
+}
+
+/// compact form of a byte string with a long run of leading zeros: z<count>+<hex of the rest>
+fn spec(b: &[u8]) -> String {
+    let z = b.iter().take_while(|&&x| x == 0).count();
+    if z >= 32 {
+        format!("z{z}+{}", util::hex(&b[z..]))
+    } else {
+        util::hex(b)
+    }
+}
+
+fn write_sparse(path: &Path, data: &[u8]) {
+    let mut s = format!("len {}\n", data.len());
+    for (i, blk) in data.chunks(256).enumerate() {
+        if blk.iter().any(|&b| b != 0) {
+            s.push_str(&format!("blk {} {}\n", i * 256, util::hex(blk)));
+        }
+    }
+    std::fs::write(path, s).unwrap();
+}
+
+/// an image in the "wide" regime of the format: both record files beyond 16 MiB (4-byte offset fields), keys of 64 KiB
+/// and of more than 128 KiB (3-byte slot-size field, key length beyond 16 bits), a value of more than 2 MiB (4-byte
+/// length field); long runs of zeros inside keys and values keep the stored (sparse) form small
+fn generate_big(out: &Path) {
+    let name = "m";
+    let dir = out.join("bytes_wide16m");
+    let _ = std::fs::remove_dir_all(&dir);
+    let mut model = Model::new();
+    let mut absent: Vec<Vec<u8>> = Vec::new();
+    let mut ctr: u32 = 0;
+    let mut mk = |len: usize| -> Vec<u8> {
+        ctr += 1;
+        let mut l = len as u64;
+        while !safe4(l) {
+            l += 1;
+        }
+        let mut k = vec![0u8; l as usize];
+        let n = k.len();
+        let c = (0x0101_0100u32 + ctr).to_be_bytes();
+        if n >= 4 {
+            k[n - 4..].copy_from_slice(&c);
+        } else {
+            k.copy_from_slice(&c[4 - n..]);
+        }
+        k
+    };
+    {
+        let db = abyssiniandb::open_file(&dir).unwrap();
+        let mut m = open(&db, "bytes", name, FileDbParams { buckets_size: HashBucketsParam::BucketsSize(8), ..Default::default() });
+        let mut put = |m: &mut Box<dyn M>, model: &mut Model, k: Vec<u8>, v: Vec<u8>| {
+            m.put_b(&k, &v);
+            model.insert(k, v);
+        };
+        // early entries (short offsets)
+        let early: Vec<Vec<u8>> = (0..10).map(|i| mk(4 + 3 * i)).collect();
+        for (i, k) in early.iter().enumerate() {
+            put(&mut m, &mut model, k.clone(), util::gen_bytes([14usize, 15, 0, 100, 23][i % 5], i as u32, 0));
+        }
+        // the value file passes 16 MiB
+        for _ in 0..17 {
+            let k = mk(12);
+            put(&mut m, &mut model, k, vec![0u8; 1 << 20]);
+        }
+        // long keys; the key file passes 16 MiB
+        let mut lens: Vec<usize> = vec![65_535, 65_536, 70_000, 131_000, 131_072, 131_100, 200_000];
+        for j in 0..126usize {
+            lens.push(if j % 2 == 0 { 140_000 + j } else { 126_000 + j });
+        }
+        let mut long: Vec<Vec<u8>> = Vec::new();
+        for (j, l) in lens.into_iter().enumerate() {
+            let k = mk(l);
+            put(&mut m, &mut model, k.clone(), util::gen_bytes([5usize, 0, 14, 300][j % 4], 300 + j as u32, 0));
+            long.push(k);
+        }
+        // the late population: every offset in it needs four bytes
+        let late: Vec<Vec<u8>> = (0..48).map(|i| mk(3 + (i * 5) % 37)).collect();
+        for (i, k) in late.iter().enumerate() {
+            put(&mut m, &mut model, k.clone(), util::gen_bytes([0usize, 5, 14, 15, 22, 23, 100, 500][i % 8], 500 + i as u32, 0));
+        }
+        // a value with a four-byte length field
+        let k2m = mk(9);
+        let mut v2m = vec![0u8; (1 << 21) + 1];
+        v2m[(1 << 21) - 7..].copy_from_slice(b"the-end!");
+        put(&mut m, &mut model, k2m, v2m);
+        // overwrites that relocate values behind 16 MiB (sizes ascending: no large free slot is reused by a smaller one)
+        for (i, k) in late.iter().enumerate().filter(|(i, _)| i % 4 == 1) {
+            let v = util::gen_bytes(600 + 40 * i, 900 + i as u32, 2);
+            put(&mut m, &mut model, k.clone(), v);
+        }
+        for (i, k) in early.iter().enumerate().filter(|(i, _)| i % 3 == 0) {
+            let v = util::gen_bytes(200 + i, 950 + i as u32, 0);
+            put(&mut m, &mut model, k.clone(), v);
+        }
+        // deletes: free slots behind 16 MiB in both files (free-list links of four bytes), one long key gone
+        for k in late.iter().step_by(5).chain(long.iter().skip(20).take(1)) {
+            let got = m.del_b(k);
+            assert_eq!(got, model.remove(k));
+            absent.push(k.clone());
+        }
+        // a few inserts after the deletes
+        for i in 0..4 {
+            let k = mk(5 + i);
+            put(&mut m, &mut model, k, util::gen_bytes(14 + i, 990 + i as u32, 0));
+        }
+        assert_eq!(m.len_b(), model.len() as u64);
+        for (k, v) in model.iter() {
+            assert_eq!(m.get_b(k).as_ref(), Some(v));
+        }
+        for k in absent.iter() {
+            assert_eq!(m.get_b(k), None);
+        }
+    }
+    let img = decoder::Image::read(&dir, name).unwrap();
+    let dec = decoder::decode(&img, Some(sig("bytes")));
+    assert!(dec.problems.is_empty(), "bytes_wide16m: {:?}", dec.problems.first());
+    assert!(decoder::contents_mismatch(&img, &dec, &model).is_none());
+    assert!(img.key.len() > (1 << 24) + 4096 && img.val.len() > (1 << 24) + 4096, "both record files must pass 16 MiB: {} {}", img.key.len(), img.val.len());
+    let free: usize = dec.keyf.free.iter().chain(dec.valf.free.iter()).map(|l| l.len()).sum();
+    let mut t = String::new();
+    t.push_str(&format!("# golden image written by the pinned release (4b82afd); kt=bytes table={} entries={} free_slots={free} max_chain={} key_file={} val_file={} (keys and values with long zero runs: zN+hex = N zero bytes, then the hex bytes)\n", dec.n, model.len(), dec.max_chain, img.key.len(), img.val.len()));
+    t.push_str(&format!("name {name}\n"));
+    for (k, v) in model.iter() {
+        t.push_str(&format!("kv {} {}\n", spec(k), spec(v)));
+    }
+    for k in absent.iter() {
+        t.push_str(&format!("absent {}\n", spec(k)));
+    }
+    std::fs::write(dir.join("expected.txt"), t).unwrap();
+    for (ext, data) in [("key", &img.key), ("val", &img.val), ("htx", &img.htx)] {
+        write_sparse(&dir.join(format!("{name}.{ext}.sparse")), data);
+        std::fs::remove_file(dir.join(format!("{name}.{ext}"))).unwrap();
+    }
+    println!("bytes_wide16m: table {} entries {} free slots {free} max chain {} key file {} val file {}", dec.n, model.len(), dec.max_chain, img.key.len(), img.val.len());
+}
+
 fn main() {
     let out = std::env::args().nth(1).expect("output directory");
     let out = Path::new(&out);
+    if std::env::args().nth(2).as_deref() == Some("only-wide") {
+        generate_big(out);
+        return;
+    }
     let mut seed = 4242;
     for kt in ["bytes", "string", "u64", "i64", "vu64"] {
         for (tag, b) in [("t8", HashBucketsParam::BucketsSize(8)), ("t128", HashBucketsParam::Capacity(100)), ("t4096", HashBucketsParam::BucketsSize(4096))] {
@@ -199,4 +344,5 @@ fn main() {
     // map names with dots (the part behind the last dot is not a file extension)
     generate(out, "string", HashBucketsParam::BucketsSize(8), "dotted", 77, "rel.2024");
     generate(out, "bytes", HashBucketsParam::BucketsSize(64), "dotted", 78, "m.v1.bak");
+    generate_big(out);
 }
